@@ -37,12 +37,12 @@ theorem msgRT_of_slots (S : Schema) (E : Enums) (cs : KeyCase) (hS : SchemaOk S 
 mutual
 theorem rt_slots (S : Schema) (E : Enums) (cs : KeyCase) (hS : SchemaOk S E cs) (fs : List FieldD)
     (cur : List (Option Nat)) (hfs : ∀ f ∈ fs, fieldJsonOk f = true) :
-    ∀ (vs : List Val) (idx : Nat), slotsOk S fs cur idx vs = true → selOkList S vs = true →
+    ∀ (vs : List Val) (idx : Nat), slotsOk' S fs cur idx vs = true → selOkList S vs = true →
       ∀ k v f, vs[k]? = some v → fs[idx + k]? = some f →
         SlotRT2 S E cs f (hidden f (idx + k) cur) (selectedInGroup f (idx + k) cur) v
   | [], _, _, _ => by intro k v f hv; simp at hv
   | a :: as, idx, h, hs => by
-    rw [slotsOk] at h
+    rw [slotsOk'] at h
     rw [selOkList] at hs
     simp only [Bool.and_eq_true] at h hs
     intro k v f hv hf
@@ -62,7 +62,7 @@ termination_by structural vs => vs
 
 theorem rt_slot (S : Schema) (E : Enums) (cs : KeyCase) (hS : SchemaOk S E cs) (f : FieldD) (hid sel : Bool)
     (hj : FJ f) (hs : HS f hid sel) :
-    ∀ (v : Val), slotOk S f hid sel v = true → selOk S v = true → SlotRT2 S E cs f hid sel v
+    ∀ (v : Val), slotOk' S f hid sel v = true → selOk S v = true → SlotRT2 S E cs f hid sel v
   | .ph, h, _ => rt_ph S E cs f hid sel hj h
   | .none, h, _ => rt_none S E cs f hid sel hs h
   | .int i, h, _ => rt_leaf S E cs f hid sel (.int i) hj (schema_enum S E cs hS f) rfl (by intro e; cases e) h
@@ -145,7 +145,7 @@ end
 /-- one message, all three facts -/
 theorem msgRT_of_wellTyped (S : Schema) (E : Enums) (cs : KeyCase) (hS : SchemaOk S E cs) (c : Nat) (sl : List Val)
     (ow : Bool) (unk : Bytes) (cur : List (Option Nat))
-    (hwt : wellTyped S (.msg c sl ow unk cur) = true) (hsel : selOk S (.msg c sl ow unk cur) = true) :
+    (hwt : wellTyped' S (.msg c sl ow unk cur) = true) (hsel : selOk S (.msg c sl ow unk cur) = true) :
     unk = [] ∧ MsgRT S E cs c sl cur := by
   rw [wellTyped_msg] at hwt
   rw [selOk_msg] at hsel
@@ -158,7 +158,7 @@ theorem msgRT_of_wellTyped (S : Schema) (E : Enums) (cs : KeyCase) (hS : SchemaO
     `jrt m` is related to `m` by `DEqv` and encodes to the same bytes -/
 theorem roundtrip_class (S : Schema) (E : Enums) (cs : KeyCase) (hS : SchemaOk S E cs) (c : Nat) (sl : List Val)
     (ow : Bool) (unk : Bytes) (cur : List (Option Nat))
-    (hwt : wellTyped S (.msg c sl ow unk cur) = true) (hsel : selOk S (.msg c sl ow unk cur) = true) :
+    (hwt : wellTyped' S (.msg c sl ow unk cur) = true) (hsel : selOk S (.msg c sl ow unk cur) = true) :
     fromDictC S E c (toDict S E cs false (.msg c sl ow unk cur)) = .ok (jrt S E cs (.msg c sl ow unk cur))
     ∧ DEqv S (.msg c sl ow unk cur) (jrt S E cs (.msg c sl ow unk cur))
     ∧ dumpVal S (jrt S E cs (.msg c sl ow unk cur)) = dumpVal S (.msg c sl ow unk cur) := by
@@ -166,7 +166,7 @@ theorem roundtrip_class (S : Schema) (E : Enums) (cs : KeyCase) (hS : SchemaOk S
   subst hunk
   have hd : DEqv S (.msg c sl ow [] cur) (jrt S E cs (.msg c sl ow [] cur)) := by
     rw [jrt_msg]; exact DEqv.msg c sl _ ow [] cur a3
-  refine ⟨?_, hd, deqv_dumpVal S _ _ hd⟩
+  refine ⟨?_, hd, deqv_dumpVal S (fun c f hf => schema_field S E cs hS c f hf) _ _ hwt hd⟩
   rw [toDict]
   simp only [mkObj, fromDictC, fromDictInit, a1, bind_ok, a2, jrt_msg]
 
